@@ -784,14 +784,14 @@ func buildSpace(thorough bool) space {
 	if thorough {
 		weeks = append(weeks, "wed", "sat-sun", "sun5", "wed3", "fri1-mon", "tue-mon2", "mon4-wed5", "sat5-fri")
 		clocks = append(clocks, "23:59", "12:30", "9:00-9:03", "0:00~24:00", "9:00-11:00/2", "23:00-01:00/2", "12:00~18:00/3")
-		pweeks = append(pweeks, "sun", "tue2", "fri-mon")
-		pclocks = append(pclocks, "00:00", "0:00-24:00/4", "9:00~9:03")
+		pweeks = append(pweeks, "tue2", "fri-mon")
+		pclocks = append(pclocks, "00:00", "0:00-24:00/4")
 	}
 	var sp space
-	// pairs of week specs / clock specs only over the first six (quick) / ten (thorough) of each menu
+	// pairs of week specs / clock specs only over the first six (quick) / eight (thorough) of each menu
 	pairN := 6
 	if thorough {
-		pairN = 10
+		pairN = 8
 	}
 	wl, cl := lists(weeks, pairN), lists(clocks, pairN)
 	for _, w := range wl {
